@@ -728,4 +728,9 @@ def suite_two_clients(ctx):
     return c15.suite_two_clients(ctx)
 
 
-SUITES = [suite_history, suite_codec, suite_two_clients]
+def suite_user_code(ctx):
+    """an application that extends the library with classes of its own (child process: harness/user_child.py memloc_subclass)"""
+    return core.suite_user_code('memloc_subclass', 'memory-addressed request')
+
+
+SUITES = [suite_history, suite_codec, suite_two_clients, suite_user_code]
